@@ -1,14 +1,956 @@
-//! Suite `idl` (stub: replaced by the owner of the suite).
+//! Suite `idl`: the interface-definition parser `IDL::try_from` (C11, C12).
+//!
+//! Case input:   (idl x<text>)
+//!
+//! Observation (of the REAL parser, under catch_unwind):
+//!   (ok x<name> x<doc> <description==input> (tk x<key>*) (mk x<key>*) (ek x<key>*)
+//!       (t (x<name> x<doc> <struct|enum>)*)        typedefs in typedef_keys order
+//!       (m (x<name> x<doc> <struct> <struct>)*)    methods in method_keys order
+//!       (e (x<name> x<doc> <struct>)*))            errors in error_keys order
+//!   (parse-error <column> x<line text> x<to_string()>)
+//!   (idl-error x<message> x<to_string()>)
+//!   (panic x<msg>)                                  (from main.rs)
+//!   type   = bool | int | float | string | object | (n x<typename>) | <struct> | <enum>
+//!          | (a type) | (d type) | (o type)
+//!   struct = (s (x<field> type)*)        enum = (e x<field>*)
+use crate::rng::Rng;
 use crate::sx::{self, Sx};
 use crate::{Case, Ctx, Suite};
+use std::convert::TryFrom;
+use varlink_parser::{Error, VEnum, VStruct, VStructOrEnum, VType, VTypeExt, IDL};
 
 pub struct IdlSuite;
 
-impl Suite for IdlSuite {
-    fn generate(&self, _ctx: &Ctx) -> Vec<Case> {
-        Vec::new()
-    }
-    fn run(&self, _ctx: &Ctx, _input: &Sx) -> Sx {
-        sx::atom("stub")
+// ---------------------------------------------------------------------------
+// canonical dump of the public structure
+
+pub fn dump_type(t: &VTypeExt) -> Sx {
+    match t {
+        VTypeExt::Plain(VType::Bool) => sx::atom("bool"),
+        VTypeExt::Plain(VType::Int) => sx::atom("int"),
+        VTypeExt::Plain(VType::Float) => sx::atom("float"),
+        VTypeExt::Plain(VType::String) => sx::atom("string"),
+        VTypeExt::Plain(VType::Object) => sx::atom("object"),
+        VTypeExt::Plain(VType::Typename(n)) => sx::tagged("n", vec![sx::xs(n)]),
+        VTypeExt::Plain(VType::Struct(s)) => dump_struct(s),
+        VTypeExt::Plain(VType::Enum(e)) => dump_enum(e),
+        VTypeExt::Array(t) => sx::tagged("a", vec![dump_type(t)]),
+        VTypeExt::Dict(t) => sx::tagged("d", vec![dump_type(t)]),
+        VTypeExt::Option(t) => sx::tagged("o", vec![dump_type(t)]),
     }
 }
+
+pub fn dump_struct(s: &VStruct) -> Sx {
+    sx::tagged("s", s.elts.iter().map(|a| sx::list(vec![sx::xs(a.name), dump_type(&a.vtype)])).collect())
+}
+
+pub fn dump_enum(e: &VEnum) -> Sx {
+    sx::tagged("e", e.elts.iter().map(|n| sx::xs(n)).collect())
+}
+
+pub fn dump_idl(idl: &IDL, input: &str) -> Sx {
+    let keys = |tag: &str, v: &Vec<&str>| sx::tagged(tag, v.iter().map(|k| sx::xs(k)).collect());
+    let types: Vec<Sx> = idl
+        .typedef_keys
+        .iter()
+        .map(|k| {
+            let t = &idl.typedefs[k];
+            let elt = match &t.elt {
+                VStructOrEnum::VStruct(s) => dump_struct(s),
+                VStructOrEnum::VEnum(e) => dump_enum(e),
+            };
+            sx::list(vec![sx::xs(t.name), sx::xs(t.doc), elt])
+        })
+        .collect();
+    let methods: Vec<Sx> = idl
+        .method_keys
+        .iter()
+        .map(|k| {
+            let m = &idl.methods[k];
+            sx::list(vec![sx::xs(m.name), sx::xs(m.doc), dump_struct(&m.input), dump_struct(&m.output)])
+        })
+        .collect();
+    let errors: Vec<Sx> = idl
+        .error_keys
+        .iter()
+        .map(|k| {
+            let e = &idl.errors[k];
+            sx::list(vec![sx::xs(e.name), sx::xs(e.doc), dump_struct(&e.parm)])
+        })
+        .collect();
+    sx::tagged(
+        "ok",
+        vec![
+            sx::xs(idl.name),
+            sx::xs(idl.doc),
+            sx::boolean(idl.description == input),
+            keys("tk", &idl.typedef_keys),
+            keys("mk", &idl.method_keys),
+            keys("ek", &idl.error_keys),
+            sx::tagged("t", types),
+            sx::tagged("m", methods),
+            sx::tagged("e", errors),
+        ],
+    )
+}
+
+pub fn observe(text: &str) -> Sx {
+    match IDL::try_from(text) {
+        Ok(idl) => dump_idl(&idl, text),
+        Err(e) => {
+            // rendering the error is part of the observation (C12: every error can be displayed)
+            let shown = e.to_string();
+            match e {
+                Error::Parse { line, column } => {
+                    sx::tagged("parse-error", vec![sx::nat(column), sx::xs(&line), sx::xs(&shown)])
+                }
+                Error::Idl(msg) => sx::tagged("idl-error", vec![sx::xs(&msg), sx::xs(&shown)]),
+            }
+        }
+    }
+}
+
+// ---------------------------------------------------------------------------
+// grammar-directed generator
+
+#[derive(Clone, Debug)]
+pub enum GTy {
+    Bool,
+    Int,
+    Float,
+    Str,
+    Object,
+    Name(String),
+    Struct(Vec<(String, GTy)>),
+    Enum(Vec<String>),
+    Array(Box<GTy>),
+    Dict(Box<GTy>),
+    Opt(Box<GTy>),
+}
+
+#[derive(Clone, Debug)]
+pub enum GBody {
+    TypeStruct(Vec<(String, GTy)>),
+    TypeEnum(Vec<String>),
+    Method(Vec<(String, GTy)>, Vec<(String, GTy)>),
+    Error(Vec<(String, GTy)>),
+}
+
+#[derive(Clone, Debug)]
+pub struct GMember {
+    pub name: String,
+    pub body: GBody,
+}
+
+#[derive(Clone, Debug)]
+pub struct GIdl {
+    pub name: String,
+    pub members: Vec<GMember>,
+}
+
+/// a rendered definition: tokens and trivia slots
+#[derive(Clone, Debug, PartialEq)]
+pub enum Piece {
+    Tok(String),
+    /// optional trivia (wce*)
+    T,
+    /// mandatory trivia (wce+)
+    TPlus,
+    /// `eol`: whitespace* eol_r | comment
+    Eol,
+    /// documentation slot in front of a member / the interface keyword (wce*)
+    Doc,
+}
+
+const LOWER: &[u8] = b"abcdefghijklmnopqrstuvwxyz";
+const UPPER: &[u8] = b"ABCDEFGHIJKLMNOPQRSTUVWXYZ";
+const DIGIT: &[u8] = b"0123456789";
+
+fn pick_b(rng: &mut Rng, sets: &[&[u8]]) -> char {
+    let total: usize = sets.iter().map(|s| s.len()).sum();
+    let mut k = rng.below(total);
+    for s in sets {
+        if k < s.len() {
+            return s[k] as char;
+        }
+        k -= s.len();
+    }
+    unreachable!()
+}
+
+pub fn gen_type_name(rng: &mut Rng) -> String {
+    let mut s = String::new();
+    s.push(pick_b(rng, &[UPPER]));
+    for _ in 0..rng.below(7) {
+        s.push(pick_b(rng, &[UPPER, LOWER, DIGIT]));
+    }
+    s
+}
+
+pub fn gen_field_name(rng: &mut Rng) -> String {
+    if rng.chance(1, 12) {
+        // keywords are legal field names
+        return rng.pick(&["int", "bool", "type", "method", "error", "interface", "string", "object", "float"]).to_string();
+    }
+    let mut s = String::new();
+    s.push(pick_b(rng, &[UPPER, LOWER]));
+    for _ in 0..rng.below(7) {
+        if rng.chance(1, 4) {
+            s.push('_');
+        }
+        s.push(pick_b(rng, &[UPPER, LOWER, DIGIT]));
+    }
+    s
+}
+
+pub fn gen_iface_elem(rng: &mut Rng, first: bool) -> String {
+    let mut s = String::new();
+    if first {
+        s.push(pick_b(rng, &[UPPER, LOWER]));
+    } else {
+        s.push(pick_b(rng, &[UPPER, LOWER, DIGIT]));
+    }
+    for _ in 0..rng.below(5) {
+        for _ in 0..(if rng.chance(1, 4) { rng.range(1, 3) } else { 0 }) {
+            s.push('-');
+        }
+        s.push(pick_b(rng, &[UPPER, LOWER, DIGIT]));
+    }
+    s
+}
+
+pub fn gen_iface_name(rng: &mut Rng) -> String {
+    let n = rng.range(2, 4);
+    let mut v = Vec::new();
+    for i in 0..n {
+        v.push(gen_iface_elem(rng, i == 0));
+    }
+    v.join(".")
+}
+
+pub fn gen_fields(rng: &mut Rng, depth: usize) -> Vec<(String, GTy)> {
+    let n = match rng.below(8) {
+        0 => 0,
+        1..=3 => 1,
+        4..=5 => 2,
+        6 => 3,
+        _ => rng.range(4, 7),
+    };
+    (0..n).map(|_| (gen_field_name(rng), gen_ty(rng, depth))).collect()
+}
+
+pub fn gen_enum(rng: &mut Rng) -> Vec<String> {
+    let n = rng.range(1, 5);
+    (0..n).map(|_| gen_field_name(rng)).collect()
+}
+
+pub fn gen_ty(rng: &mut Rng, depth: usize) -> GTy {
+    let k = rng.below(if depth == 0 { 6 } else { 14 });
+    match k {
+        0 => GTy::Bool,
+        1 => GTy::Int,
+        2 => GTy::Float,
+        3 => GTy::Str,
+        4 => GTy::Object,
+        5 => GTy::Name(gen_type_name(rng)),
+        6 | 7 => GTy::Struct(gen_fields(rng, depth - 1)),
+        8 => GTy::Enum(gen_enum(rng)),
+        9 | 10 => GTy::Array(Box::new(gen_ty(rng, depth - 1))),
+        11 => GTy::Dict(Box::new(gen_ty(rng, depth - 1))),
+        _ => {
+            // an option never wraps an option directly
+            let mut t = gen_ty(rng, depth - 1);
+            while let GTy::Opt(inner) = t {
+                t = *inner;
+            }
+            GTy::Opt(Box::new(t))
+        }
+    }
+}
+
+pub fn gen_member(rng: &mut Rng, name: String, depth: usize) -> GMember {
+    let body = match rng.below(7) {
+        0 | 1 => GBody::TypeStruct(gen_fields(rng, depth)),
+        2 => GBody::TypeEnum(gen_enum(rng)),
+        3 | 4 | 5 => GBody::Method(gen_fields(rng, depth), gen_fields(rng, depth)),
+        _ => GBody::Error(gen_fields(rng, depth)),
+    };
+    GMember { name, body }
+}
+
+pub fn gen_idl(rng: &mut Rng, max_members: usize, depth: usize) -> GIdl {
+    let n = rng.range(1, max_members);
+    let mut names: Vec<String> = Vec::new();
+    let mut members = Vec::new();
+    for _ in 0..n {
+        let mut nm = gen_type_name(rng);
+        while names.contains(&nm) {
+            nm.push('x');
+        }
+        names.push(nm.clone());
+        members.push(gen_member(rng, nm, depth));
+    }
+    GIdl { name: gen_iface_name(rng), members }
+}
+
+fn tok(p: &mut Vec<Piece>, s: &str) {
+    p.push(Piece::Tok(s.to_string()));
+}
+
+pub fn render_ty(t: &GTy, p: &mut Vec<Piece>) {
+    match t {
+        GTy::Bool => tok(p, "bool"),
+        GTy::Int => tok(p, "int"),
+        GTy::Float => tok(p, "float"),
+        GTy::Str => tok(p, "string"),
+        GTy::Object => tok(p, "object"),
+        GTy::Name(n) => tok(p, n),
+        GTy::Struct(f) => render_struct(f, p),
+        GTy::Enum(e) => render_enum(e, p),
+        GTy::Array(t) => {
+            tok(p, "[]");
+            render_ty(t, p)
+        }
+        GTy::Dict(t) => {
+            tok(p, "[string]");
+            render_ty(t, p)
+        }
+        GTy::Opt(t) => {
+            tok(p, "?");
+            render_ty(t, p)
+        }
+    }
+}
+
+pub fn render_struct(f: &[(String, GTy)], p: &mut Vec<Piece>) {
+    tok(p, "(");
+    p.push(Piece::T);
+    for (i, (n, t)) in f.iter().enumerate() {
+        if i > 0 {
+            tok(p, ",");
+        }
+        p.push(Piece::T);
+        tok(p, n);
+        p.push(Piece::T);
+        tok(p, ":");
+        p.push(Piece::T);
+        render_ty(t, p);
+    }
+    p.push(Piece::T);
+    tok(p, ")");
+}
+
+pub fn render_enum(e: &[String], p: &mut Vec<Piece>) {
+    tok(p, "(");
+    p.push(Piece::T);
+    for (i, n) in e.iter().enumerate() {
+        if i > 0 {
+            tok(p, ",");
+            p.push(Piece::T);
+        }
+        tok(p, n);
+    }
+    p.push(Piece::T);
+    tok(p, ")");
+}
+
+pub fn render_idl(g: &GIdl) -> Vec<Piece> {
+    let mut p = Vec::new();
+    p.push(Piece::Doc);
+    tok(&mut p, "interface");
+    p.push(Piece::TPlus);
+    tok(&mut p, &g.name);
+    for m in &g.members {
+        p.push(Piece::Eol);
+        p.push(Piece::Doc);
+        match &m.body {
+            GBody::TypeStruct(f) => {
+                tok(&mut p, "type");
+                p.push(Piece::TPlus);
+                tok(&mut p, &m.name);
+                p.push(Piece::T);
+                render_struct(f, &mut p);
+            }
+            GBody::TypeEnum(e) => {
+                tok(&mut p, "type");
+                p.push(Piece::TPlus);
+                tok(&mut p, &m.name);
+                p.push(Piece::T);
+                render_enum(e, &mut p);
+            }
+            GBody::Method(i, o) => {
+                tok(&mut p, "method");
+                p.push(Piece::TPlus);
+                tok(&mut p, &m.name);
+                p.push(Piece::T);
+                render_struct(i, &mut p);
+                p.push(Piece::T);
+                tok(&mut p, "->");
+                p.push(Piece::T);
+                render_struct(o, &mut p);
+            }
+            GBody::Error(f) => {
+                tok(&mut p, "error");
+                p.push(Piece::TPlus);
+                tok(&mut p, &m.name);
+                p.push(Piece::T);
+                render_struct(f, &mut p);
+            }
+        }
+    }
+    p.push(Piece::T);
+    p
+}
+
+pub const WS_CHARS: &[char] = &[
+    ' ', ' ', ' ', '\t', '\u{00A0}', '\u{FEFF}', '\u{1680}', '\u{180E}', '\u{2000}', '\u{2001}', '\u{2005}', '\u{200A}',
+    '\u{202F}', '\u{205F}', '\u{3000}',
+];
+pub const EOLS: &[&str] = &["\n", "\n", "\n", "\r\n", "\r", "\u{2028}", "\u{2029}"];
+
+/// 0 = minimal ASCII layout, 1 = ASCII trivia, 2 = everything legal
+pub fn gen_comment(rng: &mut Rng, style: usize) -> String {
+    let mut s = String::from("#");
+    let n = rng.below(12);
+    for _ in 0..n {
+        match rng.below(if style >= 2 { 14 } else { 8 }) {
+            0 | 1 | 2 => s.push(pick_b(rng, &[LOWER])),
+            3 => s.push(' '),
+            4 => s.push('#'),
+            5 => s.push(*rng.pick(&['(', ')', ':', ',', '-', '>', '?', '[', ']', '_', '.'])),
+            6 => s.push_str(*rng.pick(&["type", "method ", "interface a.b", "error"])),
+            7 => s.push('\t'),
+            8 => s.push_str(*rng.pick(&["\u{1b}[0m", "\u{1b}[34m", "\u{1b}", "\u{1b}[", "\u{1b}[0", "[0m"])),
+            9 => s.push(*rng.pick(&['\u{00e4}', '\u{20ac}', '\u{1F600}', '\u{0085}', '\u{000B}', '\u{000C}', '\u{0000}'])),
+            10 => s.push(*rng.pick(WS_CHARS)),
+            _ => s.push(char::from_u32(rng.range(0x20, 0x2FFF) as u32).filter(|c| !matches!(c, '\u{2028}' | '\u{2029}')).unwrap_or('x')),
+        }
+    }
+    s.push_str(if style >= 2 { *rng.pick(EOLS) } else { "\n" });
+    s
+}
+
+pub fn gen_trivia(rng: &mut Rng, style: usize, nonempty: bool, doc: bool) -> String {
+    if style == 0 {
+        return if nonempty { " ".into() } else { String::new() };
+    }
+    let mut s = String::new();
+    let n = if nonempty {
+        rng.range(1, 4)
+    } else if doc {
+        rng.below(5)
+    } else if rng.chance(1, 2) {
+        0
+    } else {
+        rng.range(1, 3)
+    };
+    for _ in 0..n {
+        match rng.below(if doc { 6 } else { 10 }) {
+            0 | 1 => s.push_str(&gen_comment(rng, style)),
+            2 => s.push_str(if style >= 2 { *rng.pick(EOLS) } else { "\n" }),
+            3 if style >= 2 => s.push(*rng.pick(WS_CHARS)),
+            _ => s.push(' '),
+        }
+    }
+    if nonempty && s.is_empty() {
+        s.push(' ');
+    }
+    s
+}
+
+pub fn gen_eol(rng: &mut Rng, style: usize) -> String {
+    if style == 0 {
+        return "\n".into();
+    }
+    if rng.chance(1, 5) {
+        return gen_comment(rng, style);
+    }
+    let mut s = String::new();
+    for _ in 0..(if rng.chance(1, 3) { rng.range(1, 3) } else { 0 }) {
+        s.push(if style >= 2 { *rng.pick(WS_CHARS) } else { ' ' });
+    }
+    s.push_str(if style >= 2 { *rng.pick(EOLS) } else { "\n" });
+    s
+}
+
+/// fill the slots; the result is a list of text fragments (tokens and trivia)
+pub fn decorate(rng: &mut Rng, pieces: &[Piece], style: usize) -> Vec<String> {
+    pieces
+        .iter()
+        .map(|p| match p {
+            Piece::Tok(s) => s.clone(),
+            Piece::T => gen_trivia(rng, style, false, false),
+            Piece::TPlus => gen_trivia(rng, style, true, false),
+            Piece::Eol => gen_eol(rng, style),
+            Piece::Doc => {
+                if style == 0 {
+                    String::new()
+                } else {
+                    gen_trivia(rng, style, false, true)
+                }
+            }
+        })
+        .collect()
+}
+
+pub fn gen_valid_text(rng: &mut Rng, max_members: usize, depth: usize, style: usize) -> (GIdl, Vec<String>) {
+    let g = gen_idl(rng, max_members, depth);
+    let frags = decorate(rng, &render_idl(&g), style);
+    (g, frags)
+}
+
+const MUT_TOKENS: &[&str] = &[
+    "interface", "type", "method", "error", "->", "(", ")", ",", ":", "[]", "[string]", "?", "bool", "int", "float", "string",
+    "object", "Foo", "foo", "a.b", "a_b", "a__b", "_", "-", ".", " ", "\n", "\t", "# c\n", "#", "\r", "\u{2028}", "1", "a",
+    "A", "->()", "()", "??", "[ ]", "[string ]", "type T ()", "\nmethod M() -> ()", "x:", ",,",
+];
+
+pub fn mutate(rng: &mut Rng, frags: &[String]) -> (String, &'static str) {
+    let mut v: Vec<String> = frags.to_vec();
+    let n = v.len();
+    let kind = match rng.below(6) {
+        0 => {
+            v.remove(rng.below(n));
+            "delete"
+        }
+        1 => {
+            let at = rng.below(n + 1);
+            v.insert(at, rng.pick(MUT_TOKENS).to_string());
+            "insert"
+        }
+        2 => {
+            let i = rng.below(n);
+            let j = rng.below(n);
+            v.swap(i, j);
+            "swap"
+        }
+        3 => {
+            let i = rng.below(n);
+            v[i] = rng.pick(MUT_TOKENS).to_string();
+            "subst"
+        }
+        4 => {
+            let i = rng.below(n);
+            let d = v[i].clone();
+            v.insert(i, d);
+            "dup"
+        }
+        _ => {
+            // character level: drop / change one char of the text
+            let s: Vec<char> = v.concat().chars().collect();
+            if s.is_empty() {
+                return (String::new(), "char");
+            }
+            let i = rng.below(s.len());
+            let mut t: Vec<char> = s.clone();
+            match rng.below(3) {
+                0 => {
+                    t.remove(i);
+                }
+                1 => t[i] = *rng.pick(&['(', ')', ':', ',', ' ', '\n', '#', '-', '_', 'a', 'A', '1', '.', '?', '[', ']', '>']),
+                _ => t.insert(i, *rng.pick(&['(', ')', ':', ',', ' ', '\n', '#', '-', '_', 'a', 'A', '1', '.', '?', '[', ']', '>'])),
+            }
+            return (t.into_iter().collect(), "char");
+        }
+    };
+    (v.concat(), kind)
+}
+
+fn case_of(text: &str, tags: &[&str]) -> Case {
+    Case { input: sx::tagged("idl", vec![sx::xs(text)]), tags: tags.iter().map(|s| s.to_string()).collect() }
+}
+
+pub fn repo_idl_files() -> Vec<(String, String)> {
+    let paths = [
+        "/repo/varlink-certification/src/org.varlink.certification.varlink",
+        "/repo/varlink_stdinterfaces/src/org.varlink.resolver.varlink",
+        "/repo/varlink_stdinterfaces/src/org.varlink.service.varlink",
+        "/repo/varlink_generator/tests/org.example.complex.varlink",
+        "/repo/examples/example/src/org.example.network.varlink",
+        "/repo/examples/more/src/org.example.more.varlink",
+        "/repo/examples/ping/src/org.example.ping.varlink",
+    ];
+    let mut v = Vec::new();
+    for p in paths {
+        if let Ok(s) = std::fs::read_to_string(p) {
+            v.push((p.to_string(), s));
+        }
+    }
+    v
+}
+
+fn corpus(cases: &mut Vec<Case>) {
+    if let Ok(txt) = std::fs::read_to_string(concat!(env!("CARGO_MANIFEST_DIR"), "/corpus/idl.txt")) {
+        for l in txt.lines() {
+            if let Some(s) = sx::parse(l) {
+                cases.push(Case { input: s, tags: vec!["corpus".into()] });
+            }
+        }
+    }
+}
+
+/// all strings over `alpha` of length 1..=max
+fn enumerate_strings(alpha: &[&str], max: usize, f: &mut dyn FnMut(&[&str])) {
+    fn rec<'a>(alpha: &[&'a str], max: usize, cur: &mut Vec<&'a str>, f: &mut dyn FnMut(&[&str])) {
+        if !cur.is_empty() {
+            f(cur);
+        }
+        if cur.len() == max {
+            return;
+        }
+        for a in alpha {
+            cur.push(a);
+            rec(alpha, max, cur, f);
+            cur.pop();
+        }
+    }
+    let mut cur = Vec::new();
+    rec(alpha, max, &mut cur, f);
+}
+
+fn gen_c11(ctx: &Ctx, rng: &mut Rng, cases: &mut Vec<Case>) {
+    // (1) grammar-directed valid definitions, three trivia styles
+    let n_valid = if ctx.thorough { 4000 } else { 700 };
+    let mut pool: Vec<Vec<String>> = Vec::new();
+    for i in 0..n_valid {
+        let style = i % 3;
+        let (_, frags) = gen_valid_text(rng, 6, 3, style);
+        let text = frags.concat();
+        cases.push(case_of(&text, &["valid", ["trivia:minimal", "trivia:ascii", "trivia:unicode"][style]]));
+        if pool.len() < 400 {
+            pool.push(frags);
+        }
+    }
+    // (2) near misses
+    let n_mut = if ctx.thorough { 12000 } else { 2500 };
+    for _ in 0..n_mut {
+        let frags = rng.pick(&pool).clone();
+        let (text, kind) = mutate(rng, &frags);
+        cases.push(case_of(&text, &["near-miss", &format!("mut:{}", kind)]));
+    }
+    // (3) interface names, exhaustive over {a,B,1,-,.}
+    let max = if ctx.thorough { 7 } else { 6 };
+    enumerate_strings(&["a", "B", "1", "-", "."], max, &mut |w| {
+        let text = format!("interface {}\nmethod F()->()", w.concat());
+        cases.push(case_of(&text, &["iface-name-enum"]));
+    });
+    //     and what may follow a name (the eol rule)
+    for name in ["a.b", "a.b-", "a.b.", "a.b-c", "a-b.c", "a--b.c-1"] {
+        for follow in ["\n", " \n", "\t \n", "# c\n", " # c\n", "#\n", "\r\n", "\r", "\u{2028}", "\u{2029}", " \u{2029}", "", " ", "\n\n", "\u{00a0}\n", "x\n", "_\n", ".\n"] {
+            let text = format!("interface {}{}method F()->()", name, follow);
+            cases.push(case_of(&text, &["iface-name-follow"]));
+        }
+    }
+    // (4) type expressions: all token sequences up to a bound, then longer random ones
+    let alpha = ["bool", "int", "string", "Foo", "[]", "[string]", "?", "(", ")", "a", ":", ",", " ", "object", "float"];
+    let tmax = if ctx.thorough { 4 } else { 3 };
+    enumerate_strings(&alpha, tmax, &mut |w| {
+        let text = format!("interface a.b\ntype T (x: {})", w.concat());
+        cases.push(case_of(&text, &["type-expr-enum"]));
+    });
+    let n_rand_ty = if ctx.thorough { 8000 } else { 1500 };
+    for _ in 0..n_rand_ty {
+        let n = rng.range(4, 9);
+        let w: Vec<&str> = (0..n).map(|_| *rng.pick(&alpha)).collect();
+        let text = if rng.chance(1, 2) {
+            format!("interface a.b\ntype T (x: {})", w.concat())
+        } else {
+            format!("interface a.b\nmethod M{} -> ()", w.concat())
+        };
+        cases.push(case_of(&text, &["type-expr-random"]));
+    }
+    for _ in 0..(if ctx.thorough { 3000 } else { 600 }) {
+        // valid types in field position, minimal layout
+        let t = gen_ty(rng, 4);
+        let mut p = Vec::new();
+        render_ty(&t, &mut p);
+        let style = rng.below(3);
+        let text = format!("interface a.b\ntype T (x: {})", decorate(rng, &p, style).concat());
+        cases.push(case_of(&text, &["type-expr-valid"]));
+    }
+    // field / type / enum name shapes
+    for w in ["a", "a_", "_a", "a_b", "a__b", "a_b_", "a_1", "1a", "A", "a1_", "a-b", "aB_cD_1", "a_b_c_d"] {
+        cases.push(case_of(&format!("interface a.b\ntype T ({}: int)", w), &["field-name"]));
+        cases.push(case_of(&format!("interface a.b\ntype T ({})", w), &["field-name"]));
+        cases.push(case_of(&format!("interface a.b\ntype T (x, {})", w), &["field-name"]));
+    }
+    for w in ["T", "t", "T1", "1T", "T_a", "Ta", "TT", "T-", "T.a", "Type", "Bool"] {
+        cases.push(case_of(&format!("interface a.b\ntype {} ()", w), &["type-name"]));
+        cases.push(case_of(&format!("interface a.b\nmethod {}() -> ()", w), &["type-name"]));
+        cases.push(case_of(&format!("interface a.b\nerror {}()", w), &["type-name"]));
+        cases.push(case_of(&format!("interface a.b\ntype T (x: {})", w), &["type-name"]));
+    }
+    // (5) duplicates: every kind x kind pair and kind x kind x kind triple, with and without a bystander
+    let kinds = ["type", "method", "error"];
+    let mk = |k: &str, n: &str, variant: usize| -> String {
+        match k {
+            "type" => {
+                if variant % 2 == 0 {
+                    format!("type {} (a: int)", n)
+                } else {
+                    format!("type {} (x, y)", n)
+                }
+            }
+            "method" => format!("method {}() -> ()", n),
+            _ => format!("error {} (s: string)", n),
+        }
+    };
+    for (i, k1) in kinds.iter().enumerate() {
+        for (j, k2) in kinds.iter().enumerate() {
+            for same in [true, false] {
+                for bystander in 0..3 {
+                    let n2 = if same { "Foo" } else { "Bar" };
+                    let mut ms = vec![mk(k1, "Foo", i), mk(k2, n2, j)];
+                    if bystander == 1 {
+                        ms.insert(1, "method Other() -> ()".into());
+                    } else if bystander == 2 {
+                        ms.push("type Other (z: bool)".into());
+                    }
+                    let text = format!("interface org.example.dup\n{}\n", ms.join("\n"));
+                    cases.push(case_of(&text, &["dup-pairs"]));
+                }
+            }
+            for (l, k3) in kinds.iter().enumerate() {
+                for pat in 0..4 {
+                    let names = match pat {
+                        0 => ["Foo", "Foo", "Foo"],
+                        1 => ["Foo", "Bar", "Foo"],
+                        2 => ["Foo", "Bar", "Bar"],
+                        _ => ["Foo", "Foo", "Bar"],
+                    };
+                    let text = format!(
+                        "interface org.example.dup\n{}\n{}\n{}\n",
+                        mk(k1, names[0], i + 1),
+                        mk(k2, names[1], j),
+                        mk(k3, names[2], l)
+                    );
+                    cases.push(case_of(&text, &["dup-triples"]));
+                }
+            }
+        }
+    }
+    // two different duplicated names, several orders: the message lists both, sorted
+    for perm in 0..6 {
+        let mut ms = vec![
+            "type Zed ()".to_string(),
+            "method Zed() -> ()".to_string(),
+            "error Abc ()".to_string(),
+            "error Abc ()".to_string(),
+            "method Mid() -> ()".to_string(),
+            "type Mid (a, b)".to_string(),
+        ];
+        ms.rotate_left(perm);
+        cases.push(case_of(&format!("interface x.y\n{}", ms.join("\n")), &["dup-multi"]));
+    }
+    // random duplicates inside generated definitions
+    for _ in 0..(if ctx.thorough { 1500 } else { 300 }) {
+        let mut g = gen_idl(rng, 7, 1);
+        let k = rng.range(1, 3);
+        for _ in 0..k {
+            let i = rng.below(g.members.len());
+            let j = rng.below(g.members.len());
+            g.members[j].name = g.members[i].name.clone();
+        }
+        let style = rng.below(2);
+        let text = decorate(rng, &render_idl(&g), style).concat();
+        cases.push(case_of(&text, &["dup-random"]));
+    }
+}
+
+fn nested(open: &str, close: &str, leaf: &str, depth: usize) -> String {
+    let mut s = String::new();
+    for _ in 0..depth {
+        s.push_str(open);
+    }
+    s.push_str(leaf);
+    for _ in 0..depth {
+        s.push_str(close);
+    }
+    s
+}
+
+fn gen_c12(ctx: &Ctx, rng: &mut Rng, cases: &mut Vec<Case>) {
+    // (1) random Unicode strings over a biased alphabet
+    let n_rand = if ctx.thorough { 20000 } else { 3000 };
+    let bits: &[&str] = &[
+        "interface", " ", "a.b", "\n", "type", "method", "error", "T", "(", ")", ":", ",", "->", "int", "#", "\r", "\r\n",
+        "\u{2028}", "\u{2029}", "\t", "\u{00a0}", "\u{feff}", "?", "[]", "[string]", "a", "_", "-", ".", "\u{1F600}", "\u{0}",
+        "\u{7f}", "\u{80}", "\u{ffff}", "\u{10ffff}", "\u{e000}", "\u{d7ff}",
+    ];
+    for i in 0..n_rand {
+        let n = rng.below(if i % 4 == 0 { 60 } else { 14 });
+        let mut s = String::new();
+        for _ in 0..n {
+            if rng.chance(3, 4) {
+                s.push_str(*rng.pick(bits));
+            } else {
+                let c = loop {
+                    let x = match rng.below(4) {
+                        0 => rng.below(0x80),
+                        1 => rng.below(0x800),
+                        2 => rng.below(0x10000),
+                        _ => rng.below(0x110000),
+                    } as u32;
+                    if let Some(c) = char::from_u32(x) {
+                        break c;
+                    }
+                };
+                s.push(c);
+            }
+        }
+        cases.push(case_of(&s, &["random-unicode"]));
+    }
+    // (2) byte-level mutations of valid definitions, re-validated as UTF-8
+    let n_mut = if ctx.thorough { 20000 } else { 3000 };
+    let mut seeds: Vec<String> = repo_idl_files().into_iter().map(|(_, s)| s).filter(|s| s.len() < 1000).collect();
+    for i in 0..60 {
+        seeds.push(gen_valid_text(rng, 4, 3, i % 3).1.concat());
+    }
+    for _ in 0..n_mut {
+        let mut b = rng.pick(&seeds).clone().into_bytes();
+        if b.is_empty() {
+            continue;
+        }
+        let k = rng.range(1, 3);
+        for _ in 0..k {
+            let i = rng.below(b.len());
+            match rng.below(5) {
+                0 => b[i] ^= 1 << rng.below(8),
+                1 => b[i] = rng.below(256) as u8,
+                2 => {
+                    b.remove(i);
+                }
+                3 => b.insert(i, rng.below(256) as u8),
+                _ => b.truncate(i),
+            }
+            if b.is_empty() {
+                break;
+            }
+        }
+        let (s, tag) = match String::from_utf8(b) {
+            Ok(s) => (s, "byte-mutation:valid-utf8"),
+            Err(e) => (String::from_utf8_lossy(e.as_bytes()).into_owned(), "byte-mutation:lossy"),
+        };
+        cases.push(case_of(&s, &[tag]));
+    }
+    // (3) every prefix of the corpus definitions
+    for (path, s) in repo_idl_files() {
+        let stride = if ctx.thorough || s.len() < 1000 { 1 } else { 3 };
+        let idx: Vec<usize> = s.char_indices().map(|(i, _)| i).chain(std::iter::once(s.len())).collect();
+        for (k, i) in idx.iter().enumerate() {
+            if k % stride == 0 || *i == s.len() {
+                cases.push(case_of(&s[..*i], &["prefix", &format!("prefix:{}", path.rsplit('/').next().unwrap_or(""))]));
+            }
+        }
+    }
+    for i in 0..(if ctx.thorough { 60 } else { 12 }) {
+        let s = gen_valid_text(rng, 3, 3, 2 - (i % 2)).1.concat();
+        let idx: Vec<usize> = s.char_indices().map(|(i, _)| i).chain(std::iter::once(s.len())).collect();
+        for i in idx {
+            cases.push(case_of(&s[..i], &["prefix", "prefix:generated"]));
+        }
+    }
+    // (4) line-ending conventions: one definition, every eol kind, valid and broken at every line
+    let lines = ["# doc", "interface org.example.eol", "", "# a type", "type T (a: int,", "  b: ?[]string)", "method M(x: T) -> ()", "error E ()"];
+    for eol in ["\n", "\r\n", "\r", "\u{2028}", "\u{2029}", "\n\r", "\u{0085}", "\u{000b}", "\u{000c}"] {
+        let text: String = lines.iter().map(|l| format!("{}{}", l, eol)).collect();
+        cases.push(case_of(&text, &["line-endings"]));
+        cases.push(case_of(text.trim_end_matches(eol), &["line-endings"]));
+        for (k, _) in lines.iter().enumerate() {
+            // an error on line k, to see which line text / column is reported under this convention
+            let mut ls: Vec<String> = lines.iter().map(|s| s.to_string()).collect();
+            for bad in ["!", "type", "(", "\u{1F600}"] {
+                let keep = ls[k].clone();
+                ls[k] = format!("{} {}", keep, bad);
+                let text: String = ls.iter().map(|l| format!("{}{}", l, eol)).collect();
+                cases.push(case_of(&text, &["line-endings", "line-endings:broken"]));
+                ls[k] = keep;
+            }
+        }
+    }
+    // (5) nesting depth
+    let depths: Vec<usize> = if ctx.thorough { (1..=200).collect() } else { vec![1, 2, 3, 5, 10, 25, 50, 100, 150, 199, 200] };
+    for d in depths {
+        let hdr = "interface a.b\n";
+        let mut v = Vec::new();
+        v.push(format!("{}type T {}", hdr, nested("(a: ", ")", "int", d)));
+        v.push(format!("{}type T (x: {})", hdr, nested("[]", "", "int", d)));
+        v.push(format!("{}type T (x: {})", hdr, nested("[string]", "", "(a, b)", d)));
+        v.push(format!("{}type T (x: {})", hdr, nested("?[]", "", "T", d)));
+        v.push(format!("{}type T (x: {})", hdr, nested("?", "", "int", d)));
+        v.push(format!("{}method M{} -> ()", hdr, nested("(a: ?[](b: [string]", "))", "(c)", d)));
+        // unbalanced / truncated
+        v.push(format!("{}type T {}", hdr, nested("(a: ", "", "int", d)));
+        v.push(format!("{}type T {}", hdr, nested("(", "", "", d)));
+        v.push(format!("{}type T {}", hdr, nested("(", ")", "", d)));
+        v.push(format!("{}type T {}", hdr, nested("(a: ", ")", "", d)));
+        v.push(format!("{}type T {}", hdr, nested("(a: ", ") ", "int", d)));
+        v.push(format!("{}type T (x: {}", hdr, nested("[", "]", "", d)));
+        v.push(format!("{}{}", hdr, nested("#", "\n", "", d)));
+        v.push(nested("\n", "", "x", d));
+        v.push(nested("\n", "\n", "interface", d));
+        for t in v {
+            cases.push(case_of(&t, &["nesting"]));
+        }
+    }
+    // (6) a few near misses and valid texts as well (positions of ordinary syntax errors)
+    for i in 0..(if ctx.thorough { 4000 } else { 800 }) {
+        let (_, frags) = gen_valid_text(rng, 4, 2, i % 3);
+        let (text, _) = mutate(rng, &frags);
+        cases.push(case_of(&text, &["near-miss"]));
+    }
+}
+
+impl Suite for IdlSuite {
+    fn generate(&self, ctx: &Ctx) -> Vec<Case> {
+        let mut rng = Rng::new(ctx.seed);
+        let mut cases = Vec::new();
+        corpus(&mut cases);
+        match ctx.prop.as_str() {
+            "C12" => gen_c12(ctx, &mut rng, &mut cases),
+            "C11" => gen_c11(ctx, &mut rng, &mut cases),
+            _ => {
+                gen_c11(ctx, &mut rng, &mut cases);
+                gen_c12(ctx, &mut rng, &mut cases);
+            }
+        }
+        cases
+    }
+
+    fn setup(&self, _ctx: &Ctx) {
+        // watchdog: a case that does not come back within 60 s is non-termination (C12)
+        std::thread::spawn(|| {
+            let mut last = HEARTBEAT.load(std::sync::atomic::Ordering::Relaxed);
+            let mut stuck = 0;
+            loop {
+                std::thread::sleep(std::time::Duration::from_millis(500));
+                let now = HEARTBEAT.load(std::sync::atomic::Ordering::Relaxed);
+                if now == last && now != 0 {
+                    stuck += 1;
+                    if stuck > 120 {
+                        eprintln!("idl suite: watchdog: case {} did not terminate within 60 s", now);
+                        std::process::exit(3);
+                    }
+                } else {
+                    stuck = 0;
+                    last = now;
+                }
+            }
+        });
+    }
+
+    fn run(&self, _ctx: &Ctx, input: &Sx) -> Sx {
+        HEARTBEAT.fetch_add(1, std::sync::atomic::Ordering::Relaxed);
+        let l = match input.as_list() {
+            Some(l) if l.len() == 2 && l[0].as_atom() == Some("idl") => l,
+            _ => return sx::atom("bad-case"),
+        };
+        let text = match l[1].as_str() {
+            Some(t) => t,
+            None => return sx::atom("bad-case"),
+        };
+        observe(&text)
+    }
+}
+
+static HEARTBEAT: std::sync::atomic::AtomicU64 = std::sync::atomic::AtomicU64::new(0);
